@@ -1139,7 +1139,15 @@ pub fn generate(thorough: bool, rng: &mut Rng, ops: &mut Vec<String>, stats: &mu
                                 written.iter().filter(|(a, b, l)| *l > 0 && (matches!(*a, 1 | 3) || cb_of(*a, b) == 1)).cloned().collect();
                             let (t2, id, len) = if kept.is_empty() { (t2, id, len) } else { rng.pick(&kept).clone() };
                             let proper = format!("{}/{}/{id}", dirs[t2 as usize], &id[..2]);
-                            let cut = rng.below(len as u64 + 1) as usize;
+                            let mut cut = rng.below(len as u64 + 1) as usize;
+                            // the cache may hold an OLDER version of this key than the repository: the cut must not produce an entry
+                            // whose size equals the size of any version of this key (same size, other bytes is outside the statement)
+                            while cut > 0 && sizes_used.iter().any(|(a, b, l)| *a == t2 && *b == id && *l == cut) {
+                                cut -= 1;
+                            }
+                            // the cut entry is an entry of size `cut` with the OLD version's bytes: a later version of this key must
+                            // not get that size (same size, other bytes is outside the statement)
+                            sizes_used.push((t2, id.clone(), cut));
                             steps.push(format!("t,{proper},{cut}"));
                             if cut < len && rng.chance(2, 3) {
                                 // ... and a ranged read through the cached handle that reaches beyond the cut
